@@ -93,8 +93,18 @@ func evalProg(p *Prog, goAlways bool) *progEval {
 		}
 		tuples := f.argTuples()
 		ev.VMOut[i] = make([]string, len(tuples))
+		hangs := 0
 		for t, tu := range tuples {
+			if hangs >= 2 {
+				// the function already ran into the instruction cap twice: the other tuples are not run
+				ev.VMOut[i][t] = "NOT-RUN"
+				ev.Outcome["not-run-after-two-hangs"]++
+				continue
+			}
 			out, diag := c.vmCall(f, tu)
+			if out == "HANG" {
+				hangs++
+			}
 			ev.VMOut[i][t] = out
 			ev.Calls++
 			if out == "BIG" {
@@ -188,7 +198,7 @@ func TestProbe(t *testing.T) {
 		f := &p.Fns[i]
 		for ti, tu := range f.argTuples() {
 			mark := "  "
-			if ev.GoOut[i][ti] != ev.VMOut[i][ti] && ev.VMOut[i][ti] != "BIG" {
+			if ev.GoOut[i][ti] != ev.VMOut[i][ti] && ev.VMOut[i][ti] != "BIG" && ev.VMOut[i][ti] != "NOT-RUN" {
 				mark = "!!"
 			}
 			if mark == "!!" || os.Getenv("C14_PROBE_ALL") != "" {
